@@ -9,8 +9,8 @@ from ..interp_prop import InterpProp
 
 class C15(InterpProp):
     id = 'C15'
-    quick_cases = 150
-    thorough_cases = 3000
+    quick_cases = 600
+    thorough_cases = 15000
     n_ops = 40
     rule = ('worlds of 2–4 interpreters over random sending/notifying charts with a random binding topology (chains, '
             'cycles, self-binding, recording callables), binds and detaches at random points, sends with parameters and '
